@@ -1241,6 +1241,7 @@ fn c05_cfg(rng: &mut Rng) -> CaseCfg {
 fn c05_run(case: &mut Case, rng: &mut Rng) {
     let steps = rng.range(5, 40);
     let late_at = rng.below(steps);
+    let mut exited: Vec<usize> = Vec::new();
     for k in 0..steps {
         if case.cfg.late > 0 && k == late_at {
             case.ctl("reglate");
@@ -1271,13 +1272,36 @@ fn c05_run(case: &mut Case, rng: &mut Rng) {
         if rng.chance(1, 15) {
             let h = rng.below(n as u64) as usize;
             case.ctl(&format!("bounce h{h}"));
+            case.running[h] = true;
+        }
+        if rng.chance(1, 12) {
+            // the software of a host returns (possibly after a sleep, i.e. in the middle of a later
+            // step); it stays finished for a while and is bounced later
+            let h = rng.below(n as u64) as usize;
+            if case.running[h] {
+                if rng.chance(1, 2) {
+                    case.ctl(&format!("q h{h} sleep {}", *rng.pick(&[1u64, 2, 4])));
+                }
+                case.ctl(&format!("q h{h} exit"));
+                exited.push(h);
+            }
         }
         case.ctl("step");
+        for h in exited.drain(..) {
+            // its queue may still hold the exit if it is asleep: it will run when it wakes
+            case.running[h] = false;
+        }
         if rng.chance(1, 4) {
             case.ctl("simclock");
         }
     }
-    // let every sleeper wake up and report
+    // bring finished / crashed hosts back and let every sleeper wake up and report
+    for h in 0..case.running.len() {
+        if !case.running[h] {
+            case.ctl(&format!("bounce h{h}"));
+            case.running[h] = true;
+        }
+    }
     for _ in 0..6 {
         let n = case.running.len();
         for h in 0..n {
@@ -1478,7 +1502,10 @@ fn c01_fs_run(case: &mut Case, rng: &mut Rng) {
                         case.ctl(&format!("q h{h} fs_mk {dir}/{n} {}{sync}", hex(&[rng.below(256) as u8, rng.below(256) as u8, 7])));
                     }
                     4 | 5 => case.ctl(&format!("q h{h} fs_ls {}", *rng.pick(&["d", "d", "e", "d/sub", ""]))),
-                    6 => case.ctl(&format!("q h{h} fs_syncdir {}", *rng.pick(&["d", "", "e"]))),
+                    6 => {
+                        case.ctl(&format!("q h{h} fs_syncdir {}", *rng.pick(&["d", "", "e"])));
+                        case.ctl(&format!("q h{h} select4"));
+                    }
                     7 => case.ctl(&format!("q h{h} fs_cat d/{}", *rng.pick(&names))),
                     8 => {
                         case.ctl(&format!("q h{h} uring_submit {}", rng.range(1, 8)));
@@ -1501,6 +1528,9 @@ fn c01_fs_run(case: &mut Case, rng: &mut Rng) {
             case.ctl(&format!("bounce h{h}"));
             case.ctl(&format!("q h{h} fs_ls d"));
             case.ctl(&format!("q h{h} fs_cat d/alpha"));
+            for _ in 0..4 {
+                case.ctl(&format!("q h{h} select4"));
+            }
             case.ctl("step");
         }
     }
